@@ -34,7 +34,11 @@ def main(argv):
             return 2
         for prop in props:
             env = dict(os.environ, VERIF_REPO=wt, VERIF_SEED=seed, VERIF_TIER=tier, VERIF_EVIDENCE_DIR=os.path.join(out, "evidence"))
-            p = subprocess.run([os.path.join(ROOT, "check"), prop, "--tier", tier], cwd=ROOT, env=env, capture_output=True, text=True)
+            also = json.load(open(os.path.join(ROOT, "tools", "claims.json"))).get(prop, {}).get("also") or []   # the registered command
+            if "--no-also" in argv:
+                also = []
+            p = subprocess.run([os.path.join(ROOT, "check"), prop, "--tier", tier] + (["--also", ",".join(also)] if also else []),
+                               cwd=ROOT, env=env, capture_output=True, text=True)
             txt = "\n".join(l for l in (p.stdout + p.stderr).splitlines() if "onda" not in l and "Caused by" not in l)
             open(os.path.join(out, f"{prop}-{tier}-seed{seed}.txt"), "w").write(txt + f"\nexit={p.returncode}\n")
             for f in glob.glob(os.path.join(ROOT, "replays", f"{prop}-*.json")):
